@@ -167,6 +167,7 @@ theorem step_loop_flags (d : Dist) (op : Op) (hop : op.loopOp = true) :
   | direct size =>
       simp only [step]
       by_cases h1 : d.initialized <;> by_cases h3 : size = 0 <;> simp [h1, h3]
+  | setPars => simp [step]
 
 theorem run_loop_flags (ops : List Op) : ∀ (d : Dist), (∀ op ∈ ops, op.loopOp = true) →
     (run d ops).1.initialized = d.initialized ∧ (run d ops).1.auto = d.auto := by
